@@ -91,15 +91,44 @@ def completed_table(idx, rep, rid):
     rep.analysed(fc)
     IS_LAST = "self.scanner.is_last(self.line_monitor.physical_line_number)"
     bad = None
+    markers = abort_markers(idx)
+    n = 0
     for sc in (Obj("sc"), None):
         for lm in (Obj("lm"), None):
             for last in (True, False):
-                it = Interp(idx, types={"self": "CsvPath"}, unknown_calls="residual", handlers={"sc.is_last": lambda i, c, r, a, k, last=last: last})
-                ps = it.run_all(fc, store={"self.scanner": sc, "self.line_monitor": lm, "self._line_monitor": lm, "lm.physical_line_number": 4})
-                want = sc is not None and lm is not None and last
-                if len(ps) != 1 or ps[0].result != ("return", want):
-                    bad = bad or f"scanner={'set' if sc else None}, line monitor={'set' if lm else None}, current line is the scan's last={last}: completed is {[p.result for p in ps][:2]}, documented {want}"
-    rep.check(bad is None, rid, f"{fc.file}::CsvPath.completed table", bad or "8 rows", K.where(fc, fc.node))
+                for aborted in ((False, True) if markers else (False,)):
+                    n += 1
+                    it = Interp(idx, types={"self": "CsvPath"}, unknown_calls="residual", handlers={"sc.is_last": lambda i, c, r, a, k, last=last: last})
+                    st = {"self.scanner": sc, "self.line_monitor": lm, "self._line_monitor": lm, "lm.physical_line_number": 4}
+                    for m in markers:
+                        st["self." + m] = aborted
+                    ps = it.run_all(fc, store=st)
+                    want = sc is not None and lm is not None and last and not aborted
+                    if len(ps) != 1 or ps[0].result != ("return", want):
+                        bad = bad or (f"scanner={'set' if sc else None}, line monitor={'set' if lm else None}, current line is the scan's last={last}, aborted by a raising policy={aborted}: "
+                                      f"completed is {[p.result for p in ps][:2]}, documented {want}")
+    rep.check(bad is None, rid, f"{fc.file}::CsvPath.completed table", bad or f"{n} rows", K.where(fc, fc.node))
+
+
+def abort_markers(idx):
+    """attributes of the csvpath that ErrorHandler._handle_if sets to True on the paths where the policy re-raises (and on no other):
+    what records that a run was cut short.  [] when there is none."""
+    fh = idx.method("ErrorHandler", "_handle_if")
+    marks = None
+    others = set()
+    for raises in (True, False):
+        it = Interp(idx, types={"self": "ErrorHandler"}, unknown_calls="residual",
+                    handlers={"self._ecm.do_i_raise": lambda i, c, r, a, k, raises=raises: raises, "self._ecm.do_i_stop": lambda i, c, r, a, k: False,
+                              "self._ecm.do_i_fail": lambda i, c, r, a, k: False, "self._ecm.do_i_print": lambda i, c, r, a, k: False,
+                              "self._error_collector.collect_error": lambda i, c, r, a, k: None})
+        ps = it.run_all(fh, args={"policy": ["raise"] if raises else [], "error": Obj("error")}, store={"self._csvpath": Obj("cp")})
+        for p in ps:
+            sets = {kk[3:] for k, kk, v in p.trace if k == "set" and kk.startswith("cp.") and v is True}
+            if raises and p.result[0] == "raise":
+                marks = sets if marks is None else (marks & sets)
+            else:
+                others |= sets
+    return sorted((marks or set()) - others)
 
 
 def abort_marker(idx, rep):
@@ -138,6 +167,8 @@ def abort_marker(idx, rep):
             if got != ("return", False):
                 badn = badn or f"scan part [{sc}], no line read yet (line number None, end line {end}): Scanner.is_last answers {got[1]!r}, so CsvPath.completed is true for a member that never read a line"
     rep.check(badn is None, "R2", f"{fl.file}::Scanner.is_last before the first line", badn or f"{len(shapes)} scan shapes x 2", K.where(fl, fl.node))
+    # … or the error handler marks the csvpath when the policy re-raises, and completed answers False for a marked csvpath (completed table)
+    marker = marker or bool(abort_markers(idx))
     ok = not (only_csvpath and position_only and not marker)
     rep.check(ok, "R2", f"{fr.file}::ResultRegistrar.completed abort on the scan's last line",
               "`completed` in the member manifest is csvpath.completed, which is true whenever the current line is the scan's last line; nothing records that the run was cut short, so a member "
